@@ -15,13 +15,16 @@ CRATES = {
     "tx3-cardano": "crates/tx3-cardano",
     "tx3-resolver": "crates/tx3-resolver",
     "tx3-lang": "crates/tx3-lang",
+    "tx3c": "bin/tx3c",
 }
+BIN = {"tx3c": "tx3c"}          # binary crates: dumped with --bin <name>
 # crates whose sources influence a crate's MIR (path dependencies)
 DEPS = {
     "tx3-tir": ["tx3-tir"],
     "tx3-cardano": ["tx3-cardano", "tx3-tir"],
     "tx3-resolver": ["tx3-resolver", "tx3-tir"],
     "tx3-lang": ["tx3-lang", "tx3-tir"],
+    "tx3c": ["tx3c", "tx3-lang", "tx3-tir"],
 }
 
 
@@ -52,9 +55,8 @@ def dump(crate, overflow="on"):
     env["CARGO_TARGET_DIR"] = os.path.join(CACHE, "mir-target")
     env.pop("RUSTFLAGS", None)
     # cargo does not re-run rustc if nothing changed, which would give an empty dump
-    lib = os.path.join(REPO, CRATES[crate], "src", "lib.rs")
-    st = os.stat(lib)
-    cmd = ["cargo", "+nightly", "rustc", "--offline", "-p", crate, "--lib", "--",
+    target = ["--bin", BIN[crate]] if crate in BIN else ["--lib"]
+    cmd = ["cargo", "+nightly", "rustc", "--offline", "-p", crate] + target + ["--",
            "-Zunpretty=mir", "-C", "debug-assertions=off", "-C", "overflow-checks=%s" % overflow,
            "--cfg", "tx3_verif_mirdump_%d" % int(time.time())]
     p = subprocess.run(cmd, cwd=REPO, env=env, capture_output=True, text=True)
